@@ -16,6 +16,7 @@ import errno
 import io
 import socket as _real
 import types
+import weakref
 
 from . import core
 
@@ -28,7 +29,7 @@ class Net(object):
         self.listeners = {}
         self.next_port = 40000
         self.next_fd = 100
-        self.by_fd = {}
+        self.by_fd = weakref.WeakValueDictionary()  # a socket nobody references is closed, as in CPython
         self.conns = []  # Connection records (transcripts)
         self.seg_mode = "whole"  # whole | small | random
         self.delay_mode = 0  # 0 none, else max delay in 1/64 s units
@@ -229,7 +230,9 @@ class SimSocket(object):
 
     # -- data ----------------------------------------------------------------------
     def _check_open(self):
-        if self._closed or self._ep is None:
+        # close() with makefile() objects alive only marks the socket: the
+        # descriptor stays usable until the last of them is closed
+        if self._ep is None or self._ep.closed:
             raise OSError(errno.EBADF, "Bad file descriptor")
 
     def send(self, data, flags=0):
@@ -294,7 +297,7 @@ class SimSocket(object):
         n = self._net
         deadline = None if self._timeout is None else s.now + self._timeout
         while True:
-            if self._closed:
+            if ep.closed:
                 raise OSError(errno.EBADF, "Bad file descriptor")
             avail = self._readable(ep, s.now)
             if avail:
@@ -343,7 +346,7 @@ class SimSocket(object):
     def shutdown(self, how):
         s = core.active()
         s.yield_point("sock.shutdown")
-        if self._closed or self._ep is None:
+        if self._ep is None or self._ep.closed:
             raise OSError(errno.ENOTCONN, "Transport endpoint is not connected")
         ep = self._ep
         if how in (_real.SHUT_WR, _real.SHUT_RDWR):
@@ -395,6 +398,8 @@ class SimSocket(object):
 
     def _real_close(self):
         s = core._ACTIVE
+        if s is not None and s is not self._net.s:
+            s = None
         ep = self._ep
         self._net.by_fd.pop(self._fd, None)
         if self._listener is not None:
@@ -433,6 +438,21 @@ class SimSocket(object):
     def detach(self):
         self._closed = True
         return self._fd
+
+    def __del__(self):
+        # like socket.socket: an unreferenced socket is closed (reference
+        # counting makes this deterministic; the cyclic collector is off
+        # during a run)
+        try:
+            if self._ep is not None and not self._ep.closed or self._listener is not None:
+                s = core._ACTIVE
+                if s is not None and s is self._net.s and not s.aborting:
+                    s.fault("socket_closed_by_refcount")
+                    self._closed = True
+                    self._io_refs = 0
+                    self._real_close()
+        except BaseException:
+            pass
 
 
 def create_connection(address, timeout=_real._GLOBAL_DEFAULT_TIMEOUT, source_address=None, all_errors=False):
